@@ -29,7 +29,7 @@ def R(proto, eng, **kw):
 
 def RS(eng, **kw):
     """the raw engine driven through scenarios TLC generates from spec/mc/MC_RawScn.tla (direction 1)"""
-    d = C('rawscn_' + eng, 'TestRaw', 'TraceRaw_' + eng, file='raw_' + eng, env={'VERIF_RAW_PROTOS': eng}, n={'quick': 120, 'thorough': 3000},
+    d = C('rawscn_' + eng, 'TestRaw', 'TraceRaw_' + eng, file='raw_' + eng, env={'VERIF_RAW_PROTOS': eng}, n={'quick': 120, 'thorough': 1500},
           scn=[('MC_RawScn', {'quick': ['RawScn_%s_a.cfg' % eng], 'thorough': ['RawScn_%s_a.cfg' % eng, 'RawScn_%s_b.cfg' % eng, 'RawScn_%s_z.cfg' % eng]})])
     d.update(kw)
     return d
@@ -296,7 +296,7 @@ CHECKS = {
     'C16': {
         'level': 'model_checking',
         'jobs': [
-            C('hsscn', 'TestHandshaker', 'TraceHandshaker', file='handshaker', trivial_len=3, n={'quick': 400, 'thorough': 100000},
+            C('hsscn', 'TestHandshaker', 'TraceHandshaker', file='handshaker', trivial_len=3, n={'quick': 400, 'thorough': 2000},
               scn=[('MC_HsScn', {'quick': ['HsScn.cfg'], 'thorough': ['HsScn.cfg']})]),
             T('MC_Wire', 'Wire.cfg', workers=4),
             C('wire', 'TestWire', 'TraceWire', n={'quick': 60, 'thorough': 800}, trivial_len=3),
@@ -416,7 +416,7 @@ CHECKS = {
             T('MC_Req', 'Req_2ctx_deadl.cfg', tiers=('thorough',)),
             C('req', 'TestReq', 'TraceReq', n={'quick': 120, 'thorough': 1500}),
             T('MC_RawSock', 'Raw_xreq.cfg'), R('xreq', 'xreq'),
-            C('reqscn', 'TestReq', 'TraceReq', file='req', n={'quick': 150, 'thorough': 4000},
+            C('reqscn', 'TestReq', 'TraceReq', file='req', n={'quick': 150, 'thorough': 1500},
               scn=[('MC_ReqScn', {'quick': ['ReqScn_retry.cfg'], 'thorough': ['ReqScn_retry6.cfg', 'ReqScn_deadl.cfg', 'ReqScn_be.cfg']})]),
         ],
         'assumptions': ASSUME_COMMON,
@@ -428,7 +428,7 @@ CHECKS = {
             T('MC_Req', 'Req_2ctx_retry.cfg', tiers=('thorough',)),
             T('MC_Req', 'Req_1ctx_all.cfg', tiers=('thorough',)),
             C('req', 'TestReq', 'TraceReq', n={'quick': 60, 'thorough': 1000}, env={'VERIF_REQ_MIX': 'faults'}),
-            C('reqscn', 'TestReq', 'TraceReq', file='req', n={'quick': 150, 'thorough': 4000},
+            C('reqscn', 'TestReq', 'TraceReq', file='req', n={'quick': 150, 'thorough': 1500},
               scn=[('MC_ReqScn', {'quick': ['ReqScn_retry.cfg'], 'thorough': ['ReqScn_retry6.cfg', 'ReqScn_deadl.cfg', 'ReqScn_be.cfg']})]),
         ],
         'assumptions': ASSUME_COMMON,
@@ -443,9 +443,9 @@ CHECKS = {
             T('MC_RepLike', 'Respondent_plain.cfg', tiers=('thorough',)), T('MC_RepLike', 'Respondent_resize.cfg', tiers=('thorough',)),
             C('rep', 'TestRep', 'TraceRep', n={'quick': 100, 'thorough': 1200}),
             C('respondent', 'TestRespondent', 'TraceRespondent', n={'quick': 100, 'thorough': 1200}),
-            C('repscn', 'TestRep', 'TraceRep', file='rep', n={'quick': 150, 'thorough': 4000},
+            C('repscn', 'TestRep', 'TraceRep', file='rep', n={'quick': 150, 'thorough': 1500},
               scn=[('MC_RepScn', {'quick': ['RepScn_rep_mixed5.cfg'], 'thorough': ['RepScn_rep_mixed.cfg', 'RepScn_rep_plain0.cfg']})]),
-            C('respondentscn', 'TestRespondent', 'TraceRespondent', file='respondent', n={'quick': 150, 'thorough': 4000},
+            C('respondentscn', 'TestRespondent', 'TraceRespondent', file='respondent', n={'quick': 150, 'thorough': 1500},
               scn=[('MC_RepScn', {'quick': ['RepScn_respondent_mixed5.cfg'], 'thorough': ['RepScn_respondent_mixed.cfg', 'RepScn_respondent_plain0.cfg']})]),
             T('MC_RawSock', 'Raw_xrep.cfg'), T('MC_RawSock', 'Raw_xrespondent.cfg'),
             R('xrep', 'xrep'), R('xrespondent', 'xrespondent'),
@@ -462,7 +462,7 @@ CHECKS = {
             T('MC_Sub', 'Sub_quick.cfg'),
             T('MC_Sub', 'Sub_full.cfg', tiers=('thorough',)),
             C('sub', 'TestSub', 'TraceSub', n={'quick': 120, 'thorough': 1500}),
-            C('subscn', 'TestSub', 'TraceSub', file='sub', n={'quick': 150, 'thorough': 6000},
+            C('subscn', 'TestSub', 'TraceSub', file='sub', n={'quick': 150, 'thorough': 1500},
               scn=[('MC_SubScn', {'quick': ['SubScn_q5.cfg'], 'thorough': ['SubScn_q5.cfg', 'SubScn_z.cfg']})]),
             T('MC_RawSock', 'Raw_xpub.cfg'), T('MC_RawSock', 'Raw_xsub.cfg'),
             R('xpub', 'xpub'), R('pub', 'xpub'), R('xsub', 'xsub'),
@@ -477,7 +477,7 @@ CHECKS = {
             T('MC_Surveyor', 'Surveyor_quick.cfg'),
             T('MC_Surveyor', 'Surveyor_full.cfg', tiers=('thorough',), timeout=2400),
             C('surveyor', 'TestSurveyor', 'TraceSurveyor', n={'quick': 120, 'thorough': 1500}),
-            C('surveyorscn', 'TestSurveyor', 'TraceSurveyor', file='surveyor', n={'quick': 150, 'thorough': 4000},
+            C('surveyorscn', 'TestSurveyor', 'TraceSurveyor', file='surveyor', n={'quick': 150, 'thorough': 1500},
               scn=[('MC_SurvScn', {'quick': ['SurvScn_a5.cfg'], 'thorough': ['SurvScn_a.cfg', 'SurvScn_b.cfg']})]),
             C('respondent', 'TestRespondent', 'TraceRespondent', n={'quick': 40, 'thorough': 400}),
             T('MC_RawSock', 'Raw_xsurveyor.cfg'), R('xsurveyor', 'xsurveyor'), R('xrespondent', 'xrespondent'),
@@ -503,9 +503,9 @@ CHECKS = {
     'C10': {
         'level': 'model_checking',
         'jobs': [
-            C('hsscn', 'TestHandshaker', 'TraceHandshaker', file='handshaker', trivial_len=3, n={'quick': 400, 'thorough': 100000},
+            C('hsscn', 'TestHandshaker', 'TraceHandshaker', file='handshaker', trivial_len=3, n={'quick': 400, 'thorough': 2000},
               scn=[('MC_HsScn', {'quick': ['HsScn.cfg'], 'thorough': ['HsScn.cfg']})]),
-            C('corescn', 'TestCore', 'TraceCore', file='core', n={'quick': 150, 'thorough': 4000},
+            C('corescn', 'TestCore', 'TraceCore', file='core', n={'quick': 150, 'thorough': 1500},
               scn=[('MC_CoreScn', {'quick': ['CoreScn_as.cfg'], 'thorough': ['CoreScn_as.cfg', 'CoreScn_sy.cfg']})]),
             T('MC_Core', 'Core_C13.cfg'), T('MC_Req', 'Req_q03.cfg'), T('MC_RepLike', 'Rep_quick.cfg'),
             T('MC_Surveyor', 'Surveyor_quick.cfg'), T('MC_RawSock', 'Raw_xpair.cfg'), T('MC_RawSock', 'Raw_xpush.cfg'),
@@ -534,9 +534,9 @@ CHECKS = {
     'C13': {
         'level': 'model_checking',
         'jobs': [
-            C('hsscn', 'TestHandshaker', 'TraceHandshaker', file='handshaker', trivial_len=3, n={'quick': 400, 'thorough': 100000},
+            C('hsscn', 'TestHandshaker', 'TraceHandshaker', file='handshaker', trivial_len=3, n={'quick': 400, 'thorough': 2000},
               scn=[('MC_HsScn', {'quick': ['HsScn.cfg'], 'thorough': ['HsScn.cfg']})]),
-            C('corescn', 'TestCore', 'TraceCore', file='core', n={'quick': 150, 'thorough': 4000},
+            C('corescn', 'TestCore', 'TraceCore', file='core', n={'quick': 150, 'thorough': 1500},
               scn=[('MC_CoreScn', {'quick': ['CoreScn_as.cfg'], 'thorough': ['CoreScn_as.cfg', 'CoreScn_sy.cfg']})]),
             T('MC_Inproc', 'Inproc.cfg'), C('inproc', 'TestInproc', 'TraceInproc'),
             T('MC_Handshaker', 'Handshaker.cfg'), C('handshaker', 'TestHandshaker', 'TraceHandshaker'),
@@ -551,7 +551,7 @@ CHECKS = {
     'C14': {
         'level': 'model_checking',
         'jobs': [
-            C('corescn', 'TestCore', 'TraceCore', file='core', n={'quick': 150, 'thorough': 4000},
+            C('corescn', 'TestCore', 'TraceCore', file='core', n={'quick': 150, 'thorough': 1500},
               scn=[('MC_CoreScn', {'quick': ['CoreScn_as.cfg'], 'thorough': ['CoreScn_as.cfg', 'CoreScn_sy.cfg']})]),
             C('errors', 'TestErrorsReal', 'TraceErrors'),
             T('MC_Inproc', 'Inproc.cfg'), C('inproc', 'TestInproc', 'TraceInproc'),
